@@ -109,8 +109,13 @@ def run_handlers(pid, tier, seed):
     if "hang" in g:
         res["hang"] = g["hang"]
         return res
-    bads, consumed, notes = vlib.validate("TraceHandlers.tla", "TraceHandlers.cfg", g["files"])
+    # thorough tier of C07: also check that the implementation-shaped HandlersImpl model predicts the real
+    # traversal for every recorded answer sequence, hostile ones included (conformance notes, not violations)
+    conf = {"CONFORMANCE": "1"} if (pid == "C07" and tier == "thorough") or os.environ.get("VERIF_CONFORMANCE") else None
+    bads, consumed, notes = vlib.validate("TraceHandlers.tla", "TraceHandlers.cfg", g["files"], extra_env=conf)
     res.update(bads=bads, consumed=consumed, notes=notes, spec_walks=nwalks)
+    if conf:
+        res["cov_handlersimpl_model_conformance_checked"] = True
     return res
 
 
@@ -253,6 +258,17 @@ def run_hist(pid, tier, seed):
         return res
     bads, consumed, notes = vlib.validate("TraceHist.tla", "TraceHist.cfg", g["files"], xmx="3g")
     res.update(bads=bads, consumed=consumed, notes=notes)
+    if pid == "C14":
+        # the machines' internal stack events (hook H3) must be a behaviour of the StackBuf model
+        g2 = vlib.run_gen(vh, "stack", tier, seed)
+        res["gens"].append(g2)
+        if "hang" in g2:
+            res["hang"] = g2["hang"]
+            return res
+        bads2, consumed2, _ = vlib.validate("TraceStack.tla", "TraceStack.cfg", g2["files"], xmx="3g")
+        res["bads"] += bads2
+        res["consumed"] += consumed2
+        res["cov_internal_stack_events_validated_against_StackBuf"] = consumed2
     return res
 
 
@@ -366,10 +382,16 @@ FAMILIES = {
 MC_NOTE = ("bounded model checking: TLC results hold for the stated constants (depth 3, length bounds); the real "
            "constants (depth 10000, 64-bit ints) are reached through trace validation of real executions; coverage of the "
            "implementation is what the generators reach")
-PARSE_RULE = ("inputs = (every reachable state of the TLA+ grammar machine with position context: BFS witness) x (all 256 "
-              "byte values) x (stop | canonical completion of the source state | of the successor state), plus the depth-limit "
-              "family with the real constant, TLC random walks (-simulate), corpus files and random documents with byte "
-              "mutations; distinct = distinct input bytes; non-trivial = longer than one byte")
+PARSE_RULE = ("inputs = bases x next byte x continuation, where bases = (BFS witness of every reachable state of the TLA+ grammar "
+              "machine: ~10 000 states carrying position, whitespace, escape-kind, digit and number-shape context) + (witness+byte for "
+              "every viable transition of the state graph, so that every target is entered through every transition: ~70 000 bases); "
+              "next byte = all 256 values for state bases, one per byte class for transition bases (thorough: all 256); continuation = "
+              "stop | completion of the successor | for rejected bytes: completion of the source and token completions ('5', '0', "
+              "quote, ...; thorough: all distinct token completions); plus depth limit x syntactic context with the real constant "
+              "(every value-start state inflated to depth 10000/10001, siblings at the deepest level), digit runs 1..24 x next byte, "
+              "whitespace runs 0..17 x byte x padding, TLC random walks (-simulate), corpus files, random documents with byte "
+              "mutations; every input under nil / fresh / reused-and-grown / after-failure / handler-grown buffers; "
+              "distinct = distinct input bytes; non-trivial = longer than one byte")
 
 CHECKS = {
     "C01": {"family": "parse", "level": "model_checking", "rule": PARSE_RULE,
@@ -393,11 +415,11 @@ CHECKS = {
             "level_note": MC_NOTE},
 }
 
-HANDLERS_RULE = ("traversals = (reachable states of the TLA+ grammar machine inside an array/object: witness x byte-class "
-                 "members x completion) x handler strategies (all-0, all-exact, mixes), plus random/corpus/walk documents x "
-                 "(random well-behaved mixes; an error at every call position with every kind of accompanying offset; hostile "
-                 "answers and every mid-token offset at every call position); distinct = distinct (document, script); "
-                 "non-trivial = at least one handler call")
+HANDLERS_RULE = ("traversals = (state bases and transition bases of the TLA+ grammar machine inside an array/object x byte-class "
+                 "members x completion / reject continuations) x handler strategies (all-0, all-exact, mixes), plus random/corpus/walk "
+                 "documents x (random well-behaved mixes; an error at every call position with every kind of accompanying offset; "
+                 "hostile answers near the integer limits; every offset from the start of the document to beyond the member at every "
+                 "call position, once and repeated); distinct = distinct (document, script); non-trivial = at least one handler call")
 CHECKS.update({
     "C07": {"family": "handlers", "level": "model_checking", "rule": HANDLERS_RULE,
             "technique": "TLA+ member-table spec (grammar) + protocol model; recorded handler call logs validated by TLC (R3)",
@@ -623,6 +645,16 @@ SELFTESTS = [
 
 def case_of(bad):
     e = vlib.event_at(bad["file"], bad["l"])
+    if "op" not in e and "ev" in e:
+        # an internal stack event: the case is the history it belongs to (the nearest reset event before it)
+        last = None
+        with open(bad["file"]) as fh:
+            for i, line in enumerate(fh, 1):
+                if i > bad["l"]:
+                    break
+                if line.startswith('{"ev":9'):
+                    last = line
+        return json.loads(last)
     if e["op"] == "sweep":
         row = e["rows"][bad["row"] - 1]
         return {"op": "doc", "in": e["pre"] + [row[0]] + e["sufs"][row[1]], "o": row[2:]}
